@@ -170,7 +170,11 @@ func (e *Enc) bindParam(v ssa.Value, name string, t types.Type) {
 }
 
 func (e *Enc) collectDebug() {
-	for _, b := range e.fn.Blocks {
+	e.collectDebugOf(e.fn, e.debugVars)
+}
+
+func (e *Enc) collectDebugOf(fn *ssa.Function, into map[string][]ssa.Value) {
+	for _, b := range fn.Blocks {
 		for _, in := range b.Instrs {
 			switch in := in.(type) {
 			case *ssa.DebugRef:
@@ -179,19 +183,19 @@ func (e *Enc) collectDebug() {
 				}
 				name := debugName(in)
 				if name != "" {
-					e.debugVars[name] = append(e.debugVars[name], in.X)
+					into[name] = append(into[name], in.X)
 				}
 			case *ssa.Phi:
 				if in.Comment != "" {
-					e.debugVars[in.Comment] = append(e.debugVars[in.Comment], in)
+					into[in.Comment] = append(into[in.Comment], in)
 				}
 				if in.Comment == "rangeint.iter" {
 					// hidden counter of `for range n` (current index 0,1,2,…): nameable as rangeiter
-					e.debugVars["rangeiter"] = append(e.debugVars["rangeiter"], in)
+					into["rangeiter"] = append(into["rangeiter"], in)
 				}
 			case *ssa.Alloc:
 				if in.Comment != "" {
-					e.debugVars[in.Comment] = append(e.debugVars[in.Comment], in)
+					into[in.Comment] = append(into[in.Comment], in)
 				}
 			}
 		}
@@ -527,35 +531,41 @@ func (e *Enc) siteKey(in ssa.Instruction) (string, bool) {
 func (e *Enc) computeSites() {
 	type site struct {
 		in       ssa.Instruction
-		pos      token.Pos
+		path     sitePath
 		blk, idx int
 	}
 	groups := map[string][]site{}
-	for _, b := range e.fn.Blocks {
-		for i, in := range b.Instrs {
-			k, ok := e.siteKey(in)
-			if !ok {
-				continue
-			}
-			groups[k] = append(groups[k], site{in, in.Pos(), b.Index, i})
+	add := func(in ssa.Instruction, path sitePath, blk, idx int, inlined bool) {
+		if k, ok := e.siteKey(in); ok && !(inlined && k == "return ") {
+			groups[k] = append(groups[k], site{in, path, blk, idx})
+		}
+		// package-qualified callee names ("call hmac.New#0") get their own numbering
+		var c *ssa.CallCommon
+		switch in := in.(type) {
+		case *ssa.Call:
+			c = in.Common()
+		case *ssa.Defer:
+			c = in.Common()
+		}
+		if c == nil || c.IsInvoke() {
+			return
+		}
+		if f := c.StaticCallee(); f != nil && f.Pkg != nil && f.Signature.Recv() == nil {
+			k := "qcall " + f.Pkg.Pkg.Name() + "." + f.Name()
+			groups[k] = append(groups[k], site{in, path, blk, idx})
 		}
 	}
-	// package-qualified callee names ("call hmac.New#0") get their own numbering
 	for _, b := range e.fn.Blocks {
 		for i, in := range b.Instrs {
-			var c *ssa.CallCommon
-			switch in := in.(type) {
-			case *ssa.Call:
-				c = in.Common()
-			case *ssa.Defer:
-				c = in.Common()
-			}
-			if c == nil || c.IsInvoke() {
-				continue
-			}
-			if f := c.StaticCallee(); f != nil && f.Pkg != nil && f.Signature.Recv() == nil {
-				k := "qcall " + f.Pkg.Pkg.Name() + "." + f.Name()
-				groups[k] = append(groups[k], site{in, in.Pos(), b.Index, i})
+			add(in, sitePath{in.Pos()}, b.Index, i, false)
+			// the sites of a helper that is executed in place count at the position of the call
+			if call, ok := in.(*ssa.Call); ok {
+				if g := e.inlineTargetStatic(call.Common(), nil); g != nil {
+					bi, ii := b.Index, i
+					e.inlineSites(g, sitePath{in.Pos()}, nil, func(x ssa.Instruction, path sitePath, _, _ int) {
+						add(x, path, bi, ii, true)
+					})
+				}
 			}
 		}
 	}
@@ -563,12 +573,11 @@ func (e *Enc) computeSites() {
 	e.siteOrdQ = map[ssa.Instruction]int{}
 	for gk, g := range groups {
 		sort.SliceStable(g, func(i, j int) bool {
-			pi, pj := g[i].pos, g[j].pos
-			if pi.IsValid() && pj.IsValid() && pi != pj {
-				return pi < pj
+			if less, decided := lessPath(g[i].path, g[j].path); decided {
+				return less
 			}
-			if pi.IsValid() != pj.IsValid() {
-				return pi.IsValid()
+			if len(g[i].path) != len(g[j].path) {
+				return len(g[i].path) < len(g[j].path)
 			}
 			if g[i].blk != g[j].blk {
 				return g[i].blk < g[j].blk
